@@ -11,6 +11,10 @@ TRUSTED_BASE = [
 LAYER_ASSUME = ["every method of PrefixFS/VolumeFS/HiddenFS (except HiddenFS.RemoveAll and listings) issues at most one base call, namely `translate`'s: checked on every run by the layers stream with a spy base",
                 "paths are valid UTF-8; linux (filepath.VolumeName is always empty)"]
 
+HIST_ASSUME = ["the Lean model of BackupFS (Model/BackupFS.lean) and of Linux+Go os semantics (Model/OS.lean) agree with the implementation on the generated histories: checked on every run, per step, on result, data, mutating primitive trace, base tree, backup tree and tracked map",
+               "root user; no hard links, fifos or devices; handles are written and closed within the operation that opened them; invalid UTF-8 names and sticky world-writable directories (protected_regular/protected_symlinks) are not generated",
+               "times stamped during a case are compared as the token 'fresh'; a Chtimes to a fresh time is invisible in traces"]
+
 PROPS = {
     "C05": {
         "theorems": ["prefix_confines", "symlink_target_confined_partial", "symlink_target_confined_full_fails", "rejected_is_escape", "escaping_name_rejected"],
@@ -44,5 +48,50 @@ PROPS = {
         "streams": [{"name": "pure"}],
         "assumptions": ["paths are valid UTF-8 (List Char); invalid UTF-8 is outside the model",
                         "sort.Sort returns a permutation ordered by Less (T19.4 then makes the algorithm irrelevant)"],
+    },
+    "C01": {
+        "theorems": ["rollback_touches_only_tracked", "removal_order", "restore_order", "nothing_tracked_after"],
+        "streams": [{"name": "hist", "quick": ["-n", "400"], "thorough": ["-n", "6000"]}],
+        "assumptions": HIST_ASSUME,
+    },
+    "C02": {
+        "theorems": ["copy_completes_before_base_is_touched", "no_base_call_without_backup", "first_write_wins", "tracked_is_not_copied_again", "copy_records_nothing"],
+        "streams": [{"name": "hist", "quick": ["-n", "300"], "thorough": ["-n", "4000"]}],
+        "assumptions": HIST_ASSUME,
+    },
+    "C03": {
+        "theorems": ["readonly_keeps_tracking", "readonly_single_ro_base_call", "mutator_shape"],
+        "streams": [{"name": "hist", "quick": ["-n", "400"], "thorough": ["-n", "6000"]}],
+        "assumptions": HIST_ASSUME + ["reading adopted for RemoveAll below a file (ENOTDIR): counts as 'does not exist'"],
+    },
+    "C04": {
+        "theorems": ["newWithFS_wiring", "base_view_never_names_loc", "backup_view_confined_to_loc", "loc_is_hidden"],
+        "streams": [{"name": "hist", "quick": ["-n", "400"], "thorough": ["-n", "6000"]}, {"name": "layers", "quick": ["-n", "10000"]}],
+        "assumptions": HIST_ASSUME + LAYER_ASSUME,
+    },
+    "C07": {
+        "theorems": ["rollback_total", "infos_reset", "second_rollback_noop", "next_transaction_fresh"],
+        "streams": [{"name": "hist", "quick": ["-n", "300"], "thorough": ["-n", "5000"]}],
+        "assumptions": HIST_ASSUME,
+    },
+    "C12": {
+        "theorems": ["finfo_roundtrip", "nil_roundtrip", "mode_roundtrip", "time_roundtrip", "reload_identity", "restart_equiv"],
+        "streams": [{"name": "hist", "quick": ["-n", "300"], "thorough": ["-n", "5000"]}],
+        "assumptions": HIST_ASSUME + ["encoding/json round-trips the fInfo struct (integers and one string): exercised with the real Marshal/Unmarshal, not proved"],
+    },
+    "C13": {
+        "theorems": ["rollback_footprint", "cleanup_uses_remove_only"],
+        "streams": [{"name": "hist", "quick": ["-n", "300"], "thorough": ["-n", "5000"]}],
+        "assumptions": HIST_ASSUME,
+    },
+    "C16": {
+        "theorems": ["resolve_reads_only", "resolve_keeps_tracking", "chain_ends_in_path", "resolve_identity_without_links_partial", "resolve_empty"],
+        "streams": [{"name": "hist", "quick": ["-n", "400"], "thorough": ["-n", "6000"]}],
+        "assumptions": HIST_ASSUME,
+    },
+    "C17": {
+        "theorems": ["forceBackup_shape", "forceBackup_untracked", "forceBackup_base_readonly_partial"],
+        "streams": [{"name": "hist", "quick": ["-n", "300"], "thorough": ["-n", "5000"]}],
+        "assumptions": HIST_ASSUME,
     },
 }
